@@ -80,3 +80,9 @@ Theorem C06_iteration : forall pre r post vs,
   (map Ok vs ++ match proxy_result r with Ok v => Ok v :: multicall_iter post | Raise e => [Raise e] end)%list.
 Proof. exact multicall_iter_prefix. Qed.
 Print Assumptions C06_iteration.
+
+(** a notification call is not exempt: an error reported in the reply to it raises exactly as for a call *)
+Theorem C06_notification_call : forall r,
+  c06_run PNotify r = [match check_for_errors r with Ok _ => Ok VNone | Raise e => Raise e end].
+Proof. exact notify_surfaces. Qed.
+Print Assumptions C06_notification_call.
